@@ -1,6 +1,7 @@
 import ProfiVerif.Driver.Codec
 import ProfiVerif.Driver.PhyRx
 import ProfiVerif.Driver.Gap
+import ProfiVerif.Driver.Diag
 open PV PV.Driver
 
 /-
@@ -15,6 +16,8 @@ def main (args : List String) : IO UInt32 := do
   | ["model", "codec"] => engineLoop (fun (_ : Unit) l => ((), (stepCodec (splitWords l)).getD "bad-op")) () inp out; return 0
   | ["model", "decoder"] => engineLoop (fun (_ : Unit) l => ((), (stepDecoder (splitWords l)).getD "bad-op")) () inp out; return 0
   | ["model", "phyrx"] => engineLoop stepPhyRx [] inp out; return 0
+  | ["model", "diag"] => engineLoop (fun (st : Option PV.Diag.PState) l => stepDiag st (splitWords l)) none inp out; return 0
+  | ["oracle", "C17", o, i] => oracleLoop oracleC17 { cap := 0, prev := "last=-" } o i
   | ["model", "gap"] => engineLoop (fun (_ : Unit) l => ((), stepGap l)) () inp out; return 0
   | ["oracle", "C12gap", o, i] => oracleLoop (fun (_ : Unit) op obs => ((), oracleGap op obs)) () o i
   | ["oracle", "C16", o, i] => oracleLoop oracleC16 {} o i
